@@ -5,8 +5,9 @@
 //       the delay expired" means "started without waiting for a timer".
 //  C09: the pool is destroyed / resized / switched between signalling and polling while its workers are
 //       busy, spinning, parking or parked; the operation must finish without a backstop firing.
-// The atomic operations on the wake state (sleep masks, totalSleeping, group epochs) and the futex calls
-// are traced and replayed through the Lean wake model.
+// When dispenso carries the `wake.*` observation hooks, the atomic operations on the pool's first wake state
+// (sleep masks, totalSleeping, group epochs, running flags) and its futex calls are traced, from construction
+// until its threads have been joined, and replayed through the Lean wake model (plug-in `wake`).
 // usage: c07_wake <seed> <scenarios> <mode>   mode 7: C07, 9: C09
 #include <atomic>
 #include <chrono>
@@ -24,6 +25,54 @@
 namespace {
 
 using namespace std::chrono;
+
+// ---- trace of the wake protocol of the pool's first PoolWakeState --------------------------------------------
+// Needs the `wake.*` observation hooks in dispenso (call / return markers of the wake-state operations, of the
+// worker loop's guard and park sequence and of the stop path).  Tracking starts at the first such hook for the
+// wake state the pool was constructed with and ends when its threads have been joined; without the hooks in the
+// tree nothing is traced (and the check says so).
+struct WakeTrack {
+  dispenso::ThreadPool* pool = nullptr;
+  const void* ws = nullptr;
+  bool active = false, done = false, usable = false;
+  int n = 0, g = 0;
+  std::vector<char> runNamed;
+  std::string desc;
+};
+WakeTrack g_wt;
+
+void nameRunFlags() {
+  char nm[32];
+  size_t i = 0;
+  for (auto& t : g_wt.pool->threads_) {
+    if (i < g_wt.runNamed.size() && !g_wt.runNamed[i]) {
+      std::snprintf(nm, sizeof nm, "run%zu", i);
+      dsched::nameRegion(&t.running_, sizeof(t.running_), nm);
+      g_wt.runNamed[i] = 1;
+    }
+    ++i;
+  }
+}
+
+void activateTracking() {
+  auto* ws = static_cast<dispenso::detail::PoolWakeState*>(const_cast<void*>(g_wt.ws));
+  g_wt.active = true;
+  g_wt.n = ws->numThreads();
+  g_wt.g = ws->groupSize();
+  g_wt.runNamed.assign((size_t)g_wt.n, 0);
+  char nm[32];
+  dsched::nameRegion(&ws->totalSleeping_, sizeof(ws->totalSleeping_), "total");
+  dsched::nameRegion(&ws->nextWakeGroup_, sizeof(ws->nextWakeGroup_), "nwg");
+  for (int g = 0; g < ws->numGroups(); ++g) {
+    std::snprintf(nm, sizeof nm, "mask%d", g);
+    dsched::nameRegion(&ws->groupStates_[(size_t)g].sleepMask, 8, nm);
+    std::snprintf(nm, sizeof nm, "ep%d", g);
+    dsched::nameRegion(&ws->waiterBlocks_[(size_t)g].waiter, 4, nm);
+  }
+  nameRunFlags();
+}
+
+bool eq(const char* a, const char* b) { return std::strcmp(a, b) == 0; }
 
 // wait (in virtual time) until every worker of the pool is blocked in its timed futex wait
 bool waitAllParked(dispenso::ThreadPool& pool, int n) {
@@ -47,13 +96,60 @@ constexpr int kNumPaths = 12;
 
 }  // namespace
 
+extern "C" void dispenso_verif_hook(const char* what, const void* obj, long a, long b) {
+  (void)b;
+  if (dsched::tid() < 0) return;
+  if (eq(what, "pool.ctor")) {
+    if (!g_wt.pool) {
+      g_wt.pool = const_cast<dispenso::ThreadPool*>(static_cast<const dispenso::ThreadPool*>(obj));
+      dsched::noPreempt(true);
+      g_wt.ws = g_wt.pool->wakeState_.load(std::memory_order_relaxed);
+      g_wt.usable = g_wt.ws && g_wt.pool->enableEpochWaiter_.load(std::memory_order_relaxed) &&
+          g_wt.pool->sleepLengthUs_.load(std::memory_order_relaxed) > 0;
+      dsched::noPreempt(false);
+    }
+    return;
+  }
+  if (std::strncmp(what, "wake.", 5) != 0 || !g_wt.usable || g_wt.done || obj != g_wt.ws) return;
+  dsched::noPreempt(true);
+  if (!g_wt.active) activateTracking();
+  if (eq(what, "wake.call.start")) { nameRunFlags(); dsched::note("call wStart %ld", a); }
+  else if (eq(what, "wake.ret.start")) dsched::note("ret wStart %ld", a);
+  else if (eq(what, "wake.call.run")) dsched::note("call wRun");
+  else if (eq(what, "wake.ret.run")) dsched::note("ret wRun %ld", a);
+  else if (eq(what, "wake.call.park")) dsched::note("call wPark");
+  else if (eq(what, "wake.ret.park")) dsched::note("ret wPark %ld", a);
+  else if (eq(what, "wake.call.claim")) dsched::note("call claimAndWakeOne");
+  else if (eq(what, "wake.ret.claim")) dsched::note("ret claimAndWakeOne %ld", a);
+  else if (eq(what, "wake.call.range")) dsched::note("call wakeRange %ld", a);
+  else if (eq(what, "wake.ret.range")) dsched::note("ret wakeRange 0");
+  else if (eq(what, "wake.call.seed")) dsched::note("call cascadeWakeSeed %ld", a);
+  else if (eq(what, "wake.ret.seed")) dsched::note("ret cascadeWakeSeed %ld", a);
+  else if (eq(what, "wake.call.cascade")) dsched::note("call cascadeWake %ld", a);
+  else if (eq(what, "wake.ret.cascade")) dsched::note("ret cascadeWake 0");
+  else if (eq(what, "wake.call.total")) dsched::note("call totalSleeping");
+  else if (eq(what, "wake.ret.total")) dsched::note("ret totalSleeping %ld", a);
+  else if (eq(what, "wake.stop.begin")) { nameRunFlags(); dsched::note("call stopAll"); }
+  else if (eq(what, "wake.stop.end")) dsched::note("ret stopAll 0");
+  else if (eq(what, "wake.joined")) {
+    // the complete life of the pool's first wake state: construction .. threads joined.  Printed here because
+    // event names are resolved when the trace is printed and the addresses may be reused afterwards.
+    g_wt.done = true;
+    char params[48];
+    std::snprintf(params, sizeof params, "wake %d %d", g_wt.n, g_wt.g);
+    dsh::emitTrace(params, g_wt.desc);
+    dsched::clearNames();
+  }
+  dsched::noPreempt(false);
+}
+
 int main(int argc, char** argv) {
   uint64_t seed = vh::argInt(argc, argv, 1, 1);
   long long N = vh::argInt(argc, argv, 2, 100);
   int mode = (int)vh::argInt(argc, argv, 3, 7);
   long long start = vh::argInt(argc, argv, 4, 0);
   dsh::installStuckHandler();
-  long long cases = 0, parkedOk = 0;
+  long long cases = 0, parkedOk = 0, traced = 0;
   for (long long it = start; it < N; ++it) {
     vh::SplitMix rng(seed * 1000003ULL + (uint64_t)it);
     std::printf("SCN %lld\n", it);
@@ -78,6 +174,8 @@ int main(int argc, char** argv) {
     int opKind = (int)rng.below(3);   // C09: 0 destructor, 1 resize, 2 setSignalingWake
     int when = (int)rng.below(6);     // C09: 0 after all parked, 1 right after a submission, 2 while busy, 3 immediately, 4/5 all parked, then a submission, then the operation
     dsched::clearNames();
+    g_wt = WakeTrack();
+    g_wt.desc = desc;
     dsched::run(o, [&] {
       mainTid = dsched::tid();
       auto body = [&](int i) {
@@ -181,8 +279,9 @@ int main(int argc, char** argv) {
       std::printf("PFAIL pool destruction / resize / wake-mode switch needed a worker's sleep backstop to finish | %s op=%d when=%d backstops=%ld\n",
                   desc.c_str(), opKind, when, bsOp);
     std::printf("NT m%d.n%d.p%d.k%d.o%d.w%d\n", mode, n > 4 ? 9 : n, path, k > 4 ? 4 : k, mode == 9 ? opKind : 0, mode == 9 ? when : 0);
+    if (g_wt.active && g_wt.done) ++traced;
   }
-  std::printf("STAT cases %lld\nSTAT all_parked %lld\n", cases, parkedOk);
+  std::printf("STAT cases %lld\nSTAT all_parked %lld\nSTAT pool_traces %lld\n", cases, parkedOk, traced);
   std::fflush(stdout);
   _exit(0);
 }
